@@ -188,6 +188,8 @@ def prefix_scan_rule(ctx, rule):
 
 
 def run(ctx):
+    ctx.rule("R13.8", "eat()'s scan and commit equal their transcription (two counters, buffers[B].as_bytes()[K], advance, need-more, commit); a run is taken and removed with one length; pop_front / swap_with / replace_with act on the whole queue's front / content")
+    ctx.guard("R13.8", "eat-transcription", lambda: r13_8(ctx))
     ctx.rule("R13.5", "the boundary validators BufferQueue::eat relies on when it pops the matched prefix (UTF8::validate_prefix / validate_suffix) test the code point at the boundary (shared with R11.8)")
     from .C11 import utf8_boundary_validators
     ctx.guard("R13.5", "boundary", lambda: utf8_boundary_validators(ctx, "R13.5"))
@@ -203,3 +205,112 @@ def run(ctx):
     ctx.guard("R13.2", "eat", lambda: r13_2(ctx))
     ctx.guard("R13.3", "front", lambda: r13_3(ctx))
     ctx.guard("R13.4", "nf", lambda: nf_common.nf_rule(ctx, "R13.4", AREA, floor=22))
+
+
+def _precise_cells(ctx, names):
+    """normal forms of the named functions of markup5ever::util with loop-carried locals told apart (phi1, phi2, ..) and
+    index expressions kept - computed for this rule only; the shared normal forms keep the coarser rendering"""
+    from lib import nf, flat, machine as mc
+    crate, mods, excl = nf_common.AREAS[AREA][:3]
+    flat.DISTINCT_PHI = True
+    try:
+        r = nf.area_nf(ctx.ast, crate, mods, excl, (), None, tuple(names))
+    finally:
+        flat.DISTINCT_PHI = False
+    out = {}
+    for k, v in r.items():
+        if isinstance(v, dict) and v.get("kind") == "paths":
+            out[k.split("::")[-1]] = mc.from_json({k: v["cells"]})[k]
+    return out
+
+
+def r13_8(ctx):
+    """eat() as a transcription of 'compare the pattern with the concatenation, byte by byte': two counters that start at 0 - B,
+    whole buffers passed, and K, bytes into buffer B; the byte compared with the pattern byte is buffers[B].as_bytes()[K]; more
+    input is needed exactly when B has reached the number of buffers; after a matching byte K + 1 < len(buffers[B]) keeps
+    (B, K + 1), otherwise the next buffer starts: (B + 1, 0); on a match B buffers are dropped from the front and K bytes cut
+    off the new front.  Plus the other consuming operations: a run is the front buffer's first n bytes and exactly those n
+    bytes are removed; pop_front pops the front; swap_with / replace_with exchange / replace the whole queue."""
+    cells = _precise_cells(ctx, ("eat", "pop_except_from", "pop_front", "swap_with", "replace_with"))
+    eat = cells.get("eat")
+    if not eat:
+        raise AnchorMissing("BufferQueue::eat has no path normal form")
+    bad = None
+    n = 0
+    B = K = None
+    for pc in eat:
+        for a, args in pc["actions"]:
+            if a == "call p2" and args:
+                m = re.fullmatch(r"self\.buffers\[(φ\d+\(0\))\]\.as_bytes\(\)\[(φ\d+\(0\))\]", str(args[0]))
+                if not m or m.group(1) == m.group(2) or str(args[1]) != "item":
+                    bad = bad or "the byte compared with the pattern byte is %s, not buffers[B].as_bytes()[K] for two counters starting at 0" % str(args[0])[:80]
+                else:
+                    B, K = m.group(1), m.group(2)
+    if B is None and bad is None:
+        raise AnchorMissing("BufferQueue::eat: no comparison of a buffered byte with the pattern byte")
+    if B is not None:
+        more = "(%s < self.buffers.len())" % B
+        room = "((%s + 1) < self.buffers[%s].len())" % (K, B)
+        for pc in eat:
+            g = pc["guards"]
+            ret = str(pc["ret"])
+            names_ = [a for a, _ in pc["actions"]]
+            compared = "call p2" in names_
+            if g.get("self.buffers.front() matches Some(_)") is False:
+                continue
+            n += 1
+            if more not in g:
+                bad = bad or "a path compares or answers without asking whether buffer B exists (%s)" % more
+                continue
+            if g[more] is False:
+                if compared or ret != "None":
+                    bad = bad or "with all buffers used up the answer is %s (after a comparison: %s), expected None" % (ret, compared)
+                continue
+            if not compared:
+                bad = bad or "buffer B exists and no byte is compared"
+                continue
+            hit = [v for k, v in g.items() if k.startswith("p2(self.buffers[%s].as_bytes()[%s],item)" % (B, K))]
+            if hit and hit[0] is False:
+                if ret != "Some(false)" or any(x.endswith("pop_front") for x in names_):
+                    bad = bad or "a mismatching byte answers %s" % ret
+                continue
+            if ret not in ("Some(true)", "!"):
+                continue
+            if room not in g:
+                bad = bad or "after a matching byte the path does not ask whether buffer B has more bytes (%s); guards: %s" % (room, [k for k in g if "len()" in k][:2])
+                continue
+            want_cnt, want_cut = ("loop(%s)" % B, "(loop((%s + 1)) as u32)" % K) if g[room] else ("loop((%s + 1))" % B, "(loop(0) as u32)")
+            loops = [a for a in names_ if a.startswith("loop-begin for _ in 0..")]
+            if not loops or loops[-1] != "loop-begin for _ in 0..%s" % want_cnt:
+                bad = bad or "with buffer B %s the commit drops %s buffers, expected 0..%s" % ("not used up" if g[room] else "used up", (loops or ["no counted loop"])[-1][len("loop-begin for _ in "):], want_cnt)
+            cuts = [[str(x) for x in args] for a, args in pc["actions"] if a == "self.buffers.front_mut().0.pop_front"]
+            if g.get("self.buffers.front_mut() matches Some(_)") and cuts != [[want_cut]]:
+                bad = bad or "with buffer B %s the commit cuts %s off the new front, expected %s" % ("not used up" if g[room] else "used up", cuts, want_cut)
+    ctx.ob("R13.8", "eat-scan-and-commit", bad is None and n >= 6, bad or "%d paths: buffers[B].as_bytes()[K] compared; (B, K) advance and commit as in the transcription" % n, "markup5ever BufferQueue::eat")
+    # the run of pop_except_from: taken and removed with the same length
+    bad = None
+    n = 0
+    for pc in cells.get("pop_except_from") or []:
+        ret = str(pc["ret"])
+        if "NotFromSet(" not in ret:
+            continue
+        n += 1
+        m = re.search(r"NotFromSet\(self\.buffers\.front_mut\(\)\.0\.unsafe_subtendril\(0,(.*)\)\)\)$", ret)
+        pops = [[str(x) for x in args] for a, args in pc["actions"] if a.endswith(".unsafe_pop_front") or a.endswith(".pop_front") and "front_mut().0" in a]
+        if not m:
+            bad = bad or "the run is %s, not the front buffer's first n bytes" % ret[:90]
+        elif pops != [[m.group(1)]]:
+            bad = bad or "the run has length %s and %s is removed from the front buffer" % (m.group(1)[:50], pops)
+        elif "nonmember_prefix_len(self.buffers.front_mut().0)" not in m.group(1) or re.search(r"[-+] *\d", m.group(1)):
+            bad = bad or "the run's length is %s, not the length of the non-member prefix" % m.group(1)[:60]
+    ctx.ob("R13.8", "run-taken-is-run-removed", bad is None and n >= 1, bad or "%d run paths: subtendril(0, n) returned and exactly n bytes removed" % n, "markup5ever BufferQueue::pop_except_from")
+    for fn, want in (("pop_front", "self.buffers.pop_front"), ("swap_with", "swap"), ("replace_with", "replace")):
+        pcs = cells.get(fn) or []
+        txt = " | ".join(" ; ".join("%s(%s)" % (a, ",".join(str(x) for x in args)) for a, args in pc["actions"]) + " -> " + str(pc["ret"]) for pc in pcs)
+        if fn == "pop_front":
+            ok = bool(pcs) and all(str(pc["ret"]) == "self.buffers.pop_front()" for pc in pcs)
+        elif fn == "swap_with":
+            ok = bool(pcs) and all(re.search(r"swap\(self\.buffers,p1\.buffers\)|swap\(p1\.buffers,self\.buffers\)|swap self\.buffers|self\.buffers\.swap\(p1\.buffers\)", txt) for pc in pcs)
+        else:
+            ok = bool(pcs) and bool(re.search(r"replace self\.buffers\(p1\.buffers\.take\(\)\)|replace\(self\.buffers,p1\.buffers\.take\(\)\)|assign self\.buffers\(p1\.buffers\.take\(\)\)|assign self\.buffers\(p1\.buffers\.into_inner\(\)\)", txt))
+        ctx.ob("R13.8", "whole-queue-op/" + fn, ok, "%s: %s" % (fn, txt[:110]) if ok else "%s does %s" % (fn, txt[:160] or "nothing"), "markup5ever BufferQueue::" + fn)
